@@ -618,11 +618,12 @@ type regType struct {
 }
 
 type registry struct {
-	consts  map[uint64]bool
-	imports []string // alias "path"
-	funcs   []regFunc
-	types   []regType
-	methods map[string][]string // pkgRel.Type.Method -> param names
+	consts   map[uint64]bool
+	consts16 map[uint64]bool // constants whose declared type is a 16-bit integer
+	imports  []string        // alias "path"
+	funcs    []regFunc
+	types    []regType
+	methods  map[string][]string // pkgRel.Type.Method -> param names
 }
 
 func (r *registry) addPackage(p *listPkg, tpkg *types.Package, files []*ast.File) {
@@ -646,11 +647,18 @@ func (r *registry) addPackage(p *listPkg, tpkg *types.Package, files []*ast.File
 		if !ok || !c.Exported() {
 			continue
 		}
-		if b, ok := c.Type().Underlying().(*types.Basic); !ok || b.Info()&types.IsInteger == 0 {
+		b, ok := c.Type().Underlying().(*types.Basic)
+		if !ok || b.Info()&types.IsInteger == 0 {
 			continue
 		}
 		if v, exact := constant.Uint64Val(constant.ToInt(c.Val())); exact && v <= 0xffffffff {
 			r.consts[v] = true
+			if b.Kind() == types.Uint16 || b.Kind() == types.Int16 {
+				if r.consts16 == nil {
+					r.consts16 = map[uint64]bool{}
+				}
+				r.consts16[v] = true
+			}
 		}
 	}
 	for _, f := range files {
@@ -748,6 +756,18 @@ func (r *registry) write() {
 	}
 	sort.Slice(cs, func(i, j int) bool { return cs[i] < cs[j] })
 	for i, v := range cs {
+		if i%16 == 0 {
+			b.WriteString("\n\t")
+		}
+		fmt.Fprintf(&b, "%d, ", v)
+	}
+	b.WriteString("\n}\n\n// RegConsts16: values of the exported constants declared with a 16-bit integer type.\nvar RegConsts16 = []uint64{")
+	cs16 := make([]uint64, 0, len(r.consts16))
+	for v := range r.consts16 {
+		cs16 = append(cs16, v)
+	}
+	sort.Slice(cs16, func(i, j int) bool { return cs16[i] < cs16[j] })
+	for i, v := range cs16 {
 		if i%16 == 0 {
 			b.WriteString("\n\t")
 		}
